@@ -223,17 +223,37 @@ class _CaseTimeout(BaseException):
     pass
 
 
+_alarm_fired = [False]
+
+
 def _on_alarm(signum, frame):
+    _alarm_fired[0] = True
     raise _CaseTimeout()
 
 
 def _run_with_timer(part, case, seconds):
+    """Run one case under an interval timer.  The exception raised by the alarm handler can be
+    swallowed or *converted* by the code it interrupts (dns.exception.ExceptionWrapper turns any
+    exception, BaseException included, into FormError/SyntaxError), so whatever comes out of a run
+    during which the alarm fired -- a result, a Violation, another exception -- is discarded and
+    reported as a timeout."""
     import signal
 
+    _alarm_fired[0] = False
     old = signal.signal(signal.SIGALRM, _on_alarm)
     signal.setitimer(signal.ITIMER_REAL, seconds)
     try:
-        return part.run(case)
+        try:
+            res = part.run(case)
+        except _CaseTimeout:
+            raise
+        except BaseException:
+            if _alarm_fired[0]:
+                raise _CaseTimeout()
+            raise
+        if _alarm_fired[0]:
+            raise _CaseTimeout()
+        return res
     finally:
         signal.setitimer(signal.ITIMER_REAL, 0)
         signal.signal(signal.SIGALRM, old)
